@@ -49,7 +49,7 @@ uint64_t vin_u64(void);
 #define VASSUME(c) do { if (!(c)) { printf("ASSUME-FALSE\n"); fflush(stdout); exit(77); } } while (0)
 #define VOBS(x) printf("OBS %s=%llx\n", #x, (unsigned long long)(x))
 #define VOBSB(p,n) do { printf("OBS %s=", #p); for (size_t i__=0;i__<(size_t)(n);i__++) printf("%02x", ((const unsigned char*)(p))[i__]); printf("\n"); } while (0)
-#define VWITNESS(tag) ((void)0)
+#define VWITNESS(tag) printf("WITNESS-POINT %s\n", tag)   /* the native witness search keeps only runs that pass one */
 #define __CPROVER_assume(c) VASSUME(c)
 #define __CPROVER_assert(c, m) VASSERT(c, m)
 #endif
